@@ -98,6 +98,56 @@ replay: none
 desc: after n sequential index_tree_append calls, in-order traversal with index_tree_next from leftmost visits the nodes in insertion order and ends with NULL, parent/child links are mutually consistent, rightmost/leftmost/count are right, index_tree_locate(t) returns the last node with base <= t
 */
 
+/*@obligation
+id: C13.cat
+props: C13 C04
+entry: h_index_history
+defs: -DHIST_CAT
+unwind: 4
+kind: bounded
+bound: one history shape through the public API: index A = 3 appends (two groups: 2+1 records), stream padding set, index B = 2 appends, lzma_index_cat(A, B); every unpadded size in 5..2^32, every uncompressed size in 0..2^32 (empty Blocks included), padding a multiple of 4 up to 2^32
+cbmc: --no-malloc-may-fail --unwindset lzma_vli_size.0:11,h_index_history.0:6,h_index_history.1:6,h_index_history.2:6,h_index_history.3:6,h_index_history.4:6,h_index_history.5:6,h_index_history.6:6,h_index_history.7:6,h_index_history.8:6
+timeout: 1200
+fn: lzma_index_init lzma_index_append lzma_index_stream_padding lzma_index_cat index_cat_helper lzma_index_file_size lzma_index_total_size lzma_index_uncompressed_size
+sentinels: 1
+expect: 40
+assume: memcpy inside index.c is modelled by a record-wise copy loop
+desc: list-of-records model against the real Index after append x3, stream_padding, append x2, lzma_index_cat: block/stream counts, uncompressed size, total size, index size and file size equal the sums over the model's records; the moved Stream is rebased exactly after the first Stream (compressed base = size of Stream 1 + its padding, uncompressed base = its uncompressed size, stream number 2, block number base 3) and keeps its records; Stream 1's last group is shrunk to its used records without changing them; exactly the six live objects remain allocated (B's shell and the replaced group are freed)
+*/
+/*@obligation
+id: C13.iter
+props: C13 C04
+entry: h_index_history
+defs: -DHIST_ITER=3
+unwind: 4
+kind: bounded
+bound: one history shape: a single-Stream index built by 3 appends into groups of 2+1 records; every unpadded size in 5..2^32, every uncompressed size in 0..2^32 (empty Blocks included), arbitrary target offset
+cbmc: --no-malloc-may-fail --unwindset lzma_vli_size.0:11,h_index_history.0:6,h_index_history.1:6,h_index_history.2:6,h_index_history.3:6,h_index_history.4:6,h_index_history.5:6,h_index_history.6:6,h_index_history.7:6,h_index_history.8:6
+timeout: 1500
+fn: lzma_index_append lzma_index_iter_init lzma_index_iter_next lzma_index_iter_locate iter_set_info index_tree_locate index_tree_next
+sentinels: 3
+expect: 40
+assume: memcpy inside index.c is modelled by a record-wise copy loop
+desc: iterating in BLOCK mode over an index built by 3 appends visits the Blocks once, in order, each with the model's unpadded/uncompressed/total size, number in file/stream and stream/file offsets (sums of the records before it), then reports the end; lzma_index_iter_locate(target) fails exactly for target >= total uncompressed size and otherwise returns THE Block whose uncompressed range contains target -- never an empty one
+*/
+/*@obligation
+id: C13.iter.4
+props: C13 C04
+entry: h_index_history
+defs: -DHIST_ITER=4
+tier: thorough
+unwind: 4
+kind: bounded
+bound: one history shape: a single-Stream index built by 4 appends into groups of 2 records; every unpadded size in 5..2^32, every uncompressed size in 0..2^32 (empty Blocks included), arbitrary target offset
+cbmc: --no-malloc-may-fail --unwindset lzma_vli_size.0:11,h_index_history.0:6,h_index_history.1:6,h_index_history.2:6,h_index_history.3:6,h_index_history.4:6,h_index_history.5:6,h_index_history.6:6,h_index_history.7:6,h_index_history.8:6
+timeout: 1500
+fn: lzma_index_append lzma_index_iter_init lzma_index_iter_next lzma_index_iter_locate iter_set_info index_tree_locate index_tree_next
+sentinels: 3
+expect: 40
+assume: memcpy inside index.c is modelled by a record-wise copy loop
+desc: iterating in BLOCK mode over an index built by 4 appends visits the Blocks once, in order, each with the model's unpadded/uncompressed/total size, number in file/stream and stream/file offsets (sums of the records before it), then reports the end; lzma_index_iter_locate(target) fails exactly for target >= total uncompressed size and otherwise returns THE Block whose uncompressed range contains target -- never an empty one
+*/
+
 #include "verif.h"
 #include <stddef.h>
 #include "spec_vli.h"
@@ -199,6 +249,8 @@ struct in {
 	uint64_t r[4][2];
 	uint32_t n;
 	uint64_t bases[9], target;
+	/* history */
+	uint64_t hu[5], hc[5], hpad, htarget;
 };
 static struct in IN VERIF_IN_INIT;
 
@@ -496,6 +548,9 @@ static index_stream S2;
 #ifndef DUP_MASK
 #	define DUP_MASK (IN.n < 8 ? (1u << IN.n) : 0u)
 #endif
+#ifndef TINY_N
+#define TINY_N 1
+#endif
 #ifndef DUP_S2_GROUP
 #	define DUP_S2_GROUP 1
 #endif
@@ -621,4 +676,111 @@ void h_index_tree(void)
 		if (NODES[k].uncompressed_base <= IN.target) want = &NODES[k];
 	}
 	ASSERT(loc == want, "index_tree_locate returns the last node whose base is <= target");
+}
+
+
+/* ---------------- bounded histories through the public API, against a list-of-records model ---------------- */
+#ifdef HIST_ITER
+#define HN1 HIST_ITER
+#define HN HIST_ITER
+#else
+#define HN1 3
+#define HN 5
+#endif
+void h_index_history(void)
+{
+	HAVOC(IN, struct in);
+	for (int k = 0; k < HN; ++k) ASSUME(IN.hu[k] >= 5 && IN.hu[k] <= (UINT64_C(1) << 32) && IN.hc[k] <= (UINT64_C(1) << 32));
+	ASSUME(IN.hpad <= (UINT64_C(1) << 32) && IN.hpad % 4 == 0);
+	g_live = 0; g_allocs = 0; g_alloc_fail_mask = 0; g_static_pool = false;
+	lzma_index *a = lzma_index_init(NULL);
+	ASSUME(a != NULL);
+#ifdef HIST_CAT
+	lzma_index *b = lzma_index_init(NULL);
+	ASSUME(b != NULL);
+#endif
+	for (int k = 0; k < HN1; ++k) {
+		lzma_index_prealloc(a, 2);
+		ASSERT(lzma_index_append(a, NULL, IN.hu[k], IN.hc[k]) == LZMA_OK, "history: append to A succeeds");
+	}
+	/* model */
+	uint64_t m_unc = 0, m_tot = 0, s_tot[2] = { 0, 0 }, s_unc[2] = { 0, 0 }, s_list[2] = { 0, 0 };
+	for (int k = 0; k < HN; ++k) {
+		const int st = k >= HN1;
+		m_unc += IN.hc[k]; m_tot += spec_ceil4(IN.hu[k]);
+		s_tot[st] += spec_ceil4(IN.hu[k]); s_unc[st] += IN.hc[k];
+		s_list[st] += spec_vli_size(IN.hu[k]) + spec_vli_size(IN.hc[k]);
+	}
+	const uint64_t s_size[2] = { 24 + s_tot[0] + spec_index_size(HN1, s_list[0]), 24 + s_tot[1] + spec_index_size(HN - HN1, s_list[1]) };
+#ifdef HIST_CAT
+	ASSERT(lzma_index_stream_padding(a, IN.hpad) == LZMA_OK, "history: padding accepted");
+	for (int k = HN1; k < HN; ++k) {
+		lzma_index_prealloc(b, 2);
+		ASSERT(lzma_index_append(b, NULL, IN.hu[k], IN.hc[k]) == LZMA_OK, "history: append to B succeeds");
+	}
+	const index_stream *sb = (const index_stream *)b->streams.rightmost;
+	ASSERT(lzma_index_cat(a, b, NULL) == LZMA_OK, "history: cat succeeds");
+	ASSERT(lzma_index_block_count(a) == 5 && lzma_index_stream_count(a) == 2, "history: 5 Blocks in 2 Streams");
+	ASSERT(lzma_index_uncompressed_size(a) == m_unc, "history: uncompressed size is the sum over the records");
+	ASSERT(lzma_index_total_size(a) == m_tot, "history: total size is the sum of the padded Block sizes");
+	ASSERT(lzma_index_file_size(a) == s_size[0] + IN.hpad + s_size[1], "history: file size = streams + padding");
+#ifdef BIS_A
+	return;
+#endif
+	ASSERT(lzma_index_size(a) == spec_index_size(5, s_list[0] + s_list[1]), "history: size of the combined Index field");
+#ifdef BIS_B
+	return;
+#endif
+	const index_stream *s1 = (const index_stream *)a->streams.leftmost, *s2 = (const index_stream *)a->streams.rightmost;
+	ASSERT(s1 != NULL && s2 == sb && s1 != s2 && a->streams.count == 2 && a->streams.root != NULL, "history: B's Stream was moved behind A's");
+	ASSERT(s2->node.compressed_base == s_size[0] + IN.hpad && s2->node.uncompressed_base == s_unc[0] && s2->number == 2 && s2->block_number_base == 3, "history: moved Stream rebased after Stream 1 and its padding");
+	ASSERT(s1->node.compressed_base == 0 && s1->node.uncompressed_base == 0 && s1->number == 1 && s1->block_number_base == 0 && s1->stream_padding == IN.hpad && s1->record_count == 3 && s2->record_count == 2, "history: Stream 1 untouched");
+#ifndef HIST_CAT_NOGROUPS
+	const index_group *g1 = (const index_group *)s1->groups.leftmost, *g2 = (const index_group *)s1->groups.rightmost, *g3 = (const index_group *)s2->groups.leftmost;
+	ASSERT(g1 != NULL && g2 != NULL && g3 != NULL && g1 != g2 && g1->last == 1 && g2->last == 0 && g2->allocated == 1 && g3->last == 1 && s2->groups.count == 1 && s1->groups.count == 2, "history: group shapes (Stream 1's last group shrunk to its used record)");
+	ASSERT(g1->records[0].unpadded_sum == IN.hu[0] && g1->records[0].uncompressed_sum == IN.hc[0]
+			&& g1->records[1].unpadded_sum == spec_ceil4(IN.hu[0]) + IN.hu[1] && g1->records[1].uncompressed_sum == IN.hc[0] + IN.hc[1]
+			&& g2->records[0].unpadded_sum == spec_ceil4(IN.hu[0]) + spec_ceil4(IN.hu[1]) + IN.hu[2] && g2->records[0].uncompressed_sum == s_unc[0]
+			&& g2->node.uncompressed_base == IN.hc[0] + IN.hc[1] && g2->node.compressed_base == spec_ceil4(IN.hu[0]) + spec_ceil4(IN.hu[1]) && g2->number_base == 3, "history: Stream 1 records are the cumulative sums of the appended sizes");
+	ASSERT(g3->records[0].unpadded_sum == IN.hu[3] && g3->records[0].uncompressed_sum == IN.hc[3]
+			&& g3->records[1].unpadded_sum == spec_ceil4(IN.hu[3]) + IN.hu[4] && g3->records[1].uncompressed_sum == s_unc[1] && g3->number_base == 1, "history: moved Stream keeps its records");
+#endif
+	REACH(hist_cat);
+	ASSERT(g_live == 6, "history: exactly the index, two Streams and three groups stay allocated (B's shell and the replaced group were freed, nothing else)");
+#else
+	ASSERT(lzma_index_block_count(a) == HN && lzma_index_uncompressed_size(a) == m_unc && lzma_index_total_size(a) == m_tot, "history: totals");
+	/* iteration visits every Block once, in order */
+	lzma_index_iter it;
+	lzma_index_iter_init(&it, a);
+	uint64_t off_c = 0, off_u = 0;  /* offsets inside the stream */
+	for (int k = 0; k < HN; ++k) {
+		ASSERT(!lzma_index_iter_next(&it, LZMA_INDEX_ITER_BLOCK), "history: iterator finds the next Block");
+		ASSERT(it.stream.number == 1 && it.stream.block_count == HN
+				&& it.stream.compressed_offset == 0 && it.stream.uncompressed_offset == 0
+				&& it.stream.compressed_size == s_size[0] && it.stream.uncompressed_size == s_unc[0]
+				&& it.stream.padding == 0, "history: Stream info equals the model");
+		ASSERT(it.block.number_in_file == (lzma_vli)(k + 1) && it.block.number_in_stream == (lzma_vli)(k + 1), "history: Block numbering");
+		ASSERT(it.block.unpadded_size == IN.hu[k] && it.block.uncompressed_size == IN.hc[k] && it.block.total_size == spec_ceil4(IN.hu[k]), "history: Block sizes equal the appended record");
+		ASSERT(it.block.compressed_stream_offset == 12 + off_c && it.block.uncompressed_stream_offset == off_u
+				&& it.block.compressed_file_offset == 12 + off_c && it.block.uncompressed_file_offset == off_u, "history: Block offsets are the sums of the records before it");
+		off_c += spec_ceil4(IN.hu[k]); off_u += IN.hc[k];
+	}
+	ASSERT(lzma_index_iter_next(&it, LZMA_INDEX_ITER_BLOCK), "history: after the last Block the iterator reports the end");
+	REACH(hist_iterated);
+
+	/* random access */
+	lzma_index_iter loc;
+	lzma_index_iter_init(&loc, a);
+	const bool miss = lzma_index_iter_locate(&loc, IN.htarget);
+	ASSERT(miss == (IN.htarget >= m_unc), "history: locate fails exactly beyond the end");
+	if (!miss) {
+		ASSERT(loc.block.uncompressed_size > 0 && loc.block.uncompressed_file_offset <= IN.htarget
+				&& IN.htarget - loc.block.uncompressed_file_offset < loc.block.uncompressed_size, "history: located Block is non-empty and contains the offset");
+		uint64_t acc = 0; int want = -1;
+		for (int k = 0; k < HN; ++k) { if (want < 0 && IN.htarget < acc + IN.hc[k]) want = k; acc += IN.hc[k]; }
+		ASSERT(want >= 0 && loc.block.number_in_file == (lzma_vli)(want + 1) && loc.block.unpadded_size == IN.hu[want], "history: located Block is the model's Block");
+		REACH(hist_located);
+		REACH_IF(want >= 2, hist_located_second_group);
+	}
+#endif
 }
